@@ -32,6 +32,7 @@ from measured import Measurement
 U1, U2 = measured.si.Meter, measured.si.Meter
 a, s, n = Decimal(2) / Decimal(1), Decimal(1) / Decimal(16), -4
 expr = lambda: Measurement(a * U1, s) ** n
+plain_expr = lambda: (a * U1) ** n
 sigma = abs(n * float(a) ** (n - 1) * float(s)) if n != 0 else 0.0
 defined = not (n < 0 and a == 0)
 try:
@@ -40,8 +41,11 @@ except Exception as e:
     if defined:
         print('REPRODUCED: raised', type(e).__name__, e); sys.exit(1)
     print('operation undefined, exception acceptable'); sys.exit(0)
-u = float(r.uncertainty.magnitude)
-print('uncertainty', u, 'first-order propagation', sigma)
+plain = plain_expr()
+ru = r.measurand.unit
+k = 1.0 if ru is plain.unit else float((1 * ru).in_unit(plain.unit).magnitude)
+u = float(r.uncertainty.magnitude) * k
+print('result', r, ' uncertainty in', plain.unit, ':', u, ' first-order propagation', sigma)
 if u < 0 or abs(u - sigma) > 1e-6 * max(abs(sigma), 1e-300) + 1e-12:
     print('REPRODUCED: uncertainty', u, 'expected', sigma); sys.exit(1)
 sys.exit(0)
